@@ -378,6 +378,7 @@ int main(int argc, char ** argv) {
     if (!in || !out) { perror("open"); return 3; }
     scpi_verif_hook = hook;
     evon = getenv("DRV_EVENTS") != NULL;
+    if (getenv("DRV_NULL_CALLBACKS")) { itf.error = NULL; itf.control = NULL; itf.flush = NULL; itf.reset = NULL; }   /* the optional ones */
     while (fgets(line, sizeof line, in)) {
         size_t n = strlen(line);
         while (n && (line[n - 1] == '\n' || line[n - 1] == '\r')) line[--n] = 0;
